@@ -302,4 +302,270 @@ Section Stmt.
     intros [] ls' pl' HP. destruct (rel_step _ rho1 tt s1 ss' ls1 tt ls' pl' HR1 HP) as (rho' & _ & HR' & _).
     split; [apply HP|]. split; [exists rho'; exact HR'|exact I].
   Qed.
+
+  (* ---------------- graph statements ---------------- *)
+  Definition lset_graph (g : graph) (s : lstate) : lstate :=
+    {| l_graph := g; l_locals := l_locals s; l_store := l_store s; l_scoped := l_scoped s; l_edges := l_edges s;
+       l_attrs := l_attrs s; l_prints := l_prints s; l_params := l_params s; l_prev := l_prev s |}.
+  Definition lpush_edge (st : lstmt) (s : lstate) : lstate :=
+    {| l_graph := l_graph s; l_locals := l_locals s; l_store := l_store s; l_scoped := l_scoped s; l_edges := l_edges s ++ [st];
+       l_attrs := l_attrs s; l_prints := l_prints s; l_params := l_params s; l_prev := l_prev s |}.
+  Definition lpush_attr (st : lstmt) (s : lstate) : lstate :=
+    {| l_graph := l_graph s; l_locals := l_locals s; l_store := l_store s; l_scoped := l_scoped s; l_edges := l_edges s;
+       l_attrs := l_attrs s ++ [st]; l_prints := l_prints s; l_params := l_params s; l_prev := l_prev s |}.
+  Definition lpush_print (st : lstmt) (s : lstate) : lstate :=
+    {| l_graph := l_graph s; l_locals := l_locals s; l_store := l_store s; l_scoped := l_scoped s; l_edges := l_edges s;
+       l_attrs := l_attrs s; l_prints := l_prints s ++ [st]; l_params := l_params s; l_prev := l_prev s |}.
+
+  Lemma add_node_eq s p : add_node s p = Ok (N.of_nat (length (s_graph s)), sset_graph (s_graph s ++ [new_gnode]) s, p).
+  Proof. reflexivity. Qed.
+  Lemma ladd_node_eq s p : ladd_node s p = Ok (N.of_nat (length (l_graph s)), lset_graph (l_graph s ++ [new_gnode]) s, p).
+  Proof. reflexivity. Qed.
+
+  (* `node`: same index in both modes; the pending operations are not affected *)
+  Lemma xsim_add_node : xsim eq add_node ladd_node.
+  Proof.
+    intros ss p n ss' p' H ls pl [rho HR] Hb. rewrite add_node_eq in H. inversion H; subst; clear H. rewrite ladd_node_eq. cbn [lres].
+    split; [exact Hb|]. split; [|rewrite (rel_length _ _ _ HR); reflexivity].
+    destruct HR as (HE & Hsc & Hpr & eops & aopss & g1 & He & Ha & Hg1 & Hg2). exists rho. split; [exact HE|]. split; [exact Hsc|]. split; [exact Hpr|].
+    exists eops, aopss, (g1 ++ [new_gnode]). split; [exact He|]. split; [exact Ha|]. cbn [lset_graph sset_graph l_graph s_graph]. split.
+    - apply (ofold_app_node _ _ (fun x g g' => apply_edge_app x g g' _) _ _ _ Hg1).
+    - apply (ofold_app_node _ _ (fun x g g' => apply_attr_app x g g' _) _ _ _ Hg2).
+  Qed.
+
+  Lemma add_edge_ok a b s p isnew s' p' : add_edge a b s p = Ok (isnew, s', p') ->
+    apply_edge (a, b) (s_graph s) = Some (s_graph s') /\ s' = sset_graph (s_graph s') s.
+  Proof.
+    unfold add_edge, bind, get_state, apply_edge. cbn [fst snd]. destruct (graph_add_edge (s_graph s) a b) as [[g' nw]|]; [|discriminate].
+    unfold set_graph, modify, ret. intros H; inversion H; subst. auto.
+  Qed.
+
+  (* the strict side evaluated an endpoint to a graph node; the lazy value denotes it *)
+  Lemma endpoint_sim fuel le ll e lf : fexpr' e -> env_rel' le ll ->
+    esim call (fun r lv n => den r lv (VGraph n)) (x <- eval' fuel le e ;; lift (as_gnode x)) (leval' lf ll e).
+  Proof.
+    intros Hf Henv ss p n ss' p' H rho ls pl HR Hb. apply bind_ok in H. destruct H as (x & s1 & p1 & H1 & H2).
+    apply lift_ok in H2. destruct H2 as (Hg & -> & ->). apply as_gnode_ok in Hg. subst x.
+    apply (eval_sim t fl glob call okfn Hpure m fuel le ll e Hf Henv lf _ _ _ _ _ H1 rho ls pl HR Hb).
+  Qed.
+
+  Lemma rel_push_edge rho ss ss' ls a b x y dbg : Rel rho ss ls -> den rho a (VGraph x) -> den rho b (VGraph y) ->
+    apply_edge (x, y) (s_graph ss) = Some (s_graph ss') -> s_locals ss' = s_locals ss ->
+    Rel rho ss' (lpush_edge (LSEdge a b [] dbg) ls).
+  Proof.
+    intros ([A1 A2] & Hsc & Hpr & eops & aopss & g1 & He & Ha & Hg1 & Hg2) Hda Hdb Hedge Hloc.
+    split; [split; [exact A1|rewrite Hloc; exact A2]|]. split; [exact Hsc|]. split; [exact Hpr|].
+    destruct (edge_before_attrs (x, y) _ _ _ _ Hg2 Hedge) as (g1' & E1 & E2).
+    exists (eops ++ [(x, y)]), aopss, g1'. cbn [lpush_edge l_edges l_attrs l_graph]. split.
+    - apply Forall2_app; [exact He|]. constructor; [|constructor]. exists a, b, dbg. auto.
+    - split; [exact Ha|]. split; [|exact E2]. eapply ofold_app_ok; [exact Hg1|]. cbn [ofold]. rewrite E1. reflexivity.
+  Qed.
+  Lemma rel_push_attr rho rho2 s1 ss' ls1 ls2 st ops : Rel rho s1 ls1 -> prefix rho rho2 -> lframe ls1 ls2 -> Renv rho2 ss' ls2 ->
+    den_astmt rho2 st ops -> apply_attrs ops (s_graph s1) = Some (s_graph ss') ->
+    Rel rho2 ss' (lpush_attr st ls2).
+  Proof.
+    intros (_ & Hsc & Hpr & eops & aopss & g1 & He & Ha & Hg1 & Hg2) Hp (F1 & F2 & F3 & F4 & F5) HR2 Hst Hops.
+    split; [exact HR2|]. split; [cbn [lpush_attr l_scoped]; congruence|]. split.
+    - cbn [lpush_attr l_prints]. rewrite F4. eapply Forall_impl; [|exact Hpr]. intros st0. apply print_ok_mono, Hp.
+    - exists eops, (aopss ++ [ops]), g1. cbn [lpush_attr l_edges l_attrs l_graph]. rewrite F1, F2, F3. split.
+      + eapply Forall2_mono_l; [|exact He]. intros st0 e. apply den_edge_mono, Hp.
+      + split; [apply Forall2_app; [eapply Forall2_mono_l; [|exact Ha]; intros st0 e; apply den_astmt_mono, Hp|constructor; [exact Hst|constructor]]|].
+        split; [exact Hg1|]. rewrite concat_app. cbn [concat]. rewrite app_nil_r. eapply ofold_app_ok; eauto.
+  Qed.
+
+  Notation exec_stmt' := (exec_stmt t fl config0 glob regexes find call).
+  Notation lexec_stmt' := (lexec_stmt t fl config0 glob regexes find call).
+
+  Lemma attrs_all_sim fuel le ll tgt lf attrs : All fattr' attrs -> env_rel' le ll ->
+    forall a, In a attrs -> asim tgt (exec_attr' fuel le tgt a) (lexec_attr' lf ll a).
+  Proof. intros Hall Henv a Hin. apply attr_sim; [apply (All_In _ _ _ Hall Hin)|exact Henv]. Qed.
+
+  Lemma xsim_attr_node fuel le ll lf node attrs : fexpr' node -> All fattr' attrs -> env_rel' le ll ->
+    xsimU (nv <- eval' fuel le node ;; n <- lift (as_gnode nv) ;; iterM (exec_attr' fuel le (TNode n)) attrs)
+          (nv <- leval' lf ll node ;; outs <- mapM (lexec_attr' lf ll) attrs ;; push_lstmt (LSAttrNode nv (concat outs) (ll_ctx ll))).
+  Proof.
+    intros Hfn Hfa Henv ss p u ss' p' H ls pl [rho HR] Hb.
+    assert (H' : exists n s1 p1, (x <- eval' fuel le node ;; lift (as_gnode x)) ss p = Ok (n, s1, p1) /\ iterM (exec_attr' fuel le (TNode n)) attrs s1 p1 = Ok (u, ss', p')).
+    { apply bind_ok in H. destruct H as (nv & s1 & p1 & H1 & H). apply bind_ok in H. destruct H as (n & s2 & p2 & H2 & H3).
+      exists n, s2, p2. split; [|exact H3]. unfold bind at 1. rewrite H1. exact H2. }
+    destruct H' as (n & s1 & p1 & H1 & H3).
+    apply lres_bind. eapply lres_mono; [apply (endpoint_sim fuel le ll node lf Hfn Henv _ _ _ _ _ H1 rho ls pl (proj1 HR) Hb)|].
+    intros nv' ls1 pl1 HP1. destruct (rel_step _ rho n ss s1 ls nv' ls1 pl1 HR HP1) as (rho1 & _ & HR1 & Hdn).
+    apply lres_bind. eapply lres_mono; [apply (attrs_sim (TNode n) _ _ attrs (attrs_all_sim fuel le ll (TNode n) lf attrs Hfa Henv) _ _ _ _ _ H3 rho1 ls1 pl1 (proj1 HR1) (proj1 HP1))|].
+    intros outs ls2 pl2 (Hb2 & Hf2 & rho2 & kvs & Hp2 & HR2 & Hd2 & Hg2).
+    unfold push_lstmt, Lazy.upd. apply lres_modify. split; [exact Hb2|]. split; [|exact I]. exists rho2.
+    apply (rel_push_attr rho1 rho2 s1 ss' ls1 ls2 _ (map (mk (TNode n)) kvs) HR1 Hp2 Hf2 HR2); [|exact Hg2].
+    exists n, kvs. split; [eapply den_mono; eauto|]. split; [exact Hd2|reflexivity].
+  Qed.
+
+  Lemma xsim_attr_edge fuel le ll lf src snk attrs : fexpr' src -> fexpr' snk -> All fattr' attrs -> env_rel' le ll ->
+    xsimU (a <- (x <- eval' fuel le src ;; lift (as_gnode x)) ;; b <- (x <- eval' fuel le snk ;; lift (as_gnode x)) ;;
+           iterM (exec_attr' fuel le (TEdge a b)) attrs)
+          (a <- leval' lf ll src ;; b <- leval' lf ll snk ;; outs <- mapM (lexec_attr' lf ll) attrs ;;
+           push_lstmt (LSAttrEdge a b (concat outs) (ll_ctx ll))).
+  Proof.
+    intros Hfa Hfb Hfat Henv ss p u ss' p' H ls pl [rho HR] Hb.
+    apply bind_ok in H. destruct H as (a & s1 & p1 & H1 & H). apply bind_ok in H. destruct H as (b & s2 & p2 & H2 & H3).
+    apply lres_bind. eapply lres_mono; [apply (endpoint_sim fuel le ll src lf Hfa Henv _ _ _ _ _ H1 rho ls pl (proj1 HR) Hb)|].
+    intros a' ls1 pl1 HP1. destruct (rel_step _ rho a ss s1 ls a' ls1 pl1 HR HP1) as (rho1 & _ & HR1 & Hda).
+    apply lres_bind. eapply lres_mono; [apply (endpoint_sim fuel le ll snk lf Hfb Henv _ _ _ _ _ H2 rho1 ls1 pl1 (proj1 HR1) (proj1 HP1))|].
+    intros b' ls2 pl2 HP2. destruct (rel_step _ rho1 b s1 s2 ls1 b' ls2 pl2 HR1 HP2) as (rho2 & Hp12 & HR2 & Hdb).
+    apply lres_bind. eapply lres_mono; [apply (attrs_sim (TEdge a b) _ _ attrs (attrs_all_sim fuel le ll (TEdge a b) lf attrs Hfat Henv) _ _ _ _ _ H3 rho2 ls2 pl2 (proj1 HR2) (proj1 HP2))|].
+    intros outs ls3 pl3 (Hb3 & Hf3 & rho3 & kvs & Hp3 & HR3 & Hd3 & Hg3).
+    unfold push_lstmt, Lazy.upd. apply lres_modify. split; [exact Hb3|]. split; [|exact I]. exists rho3.
+    apply (rel_push_attr rho2 rho3 s2 ss' ls2 ls3 _ (map (mk (TEdge a b)) kvs) HR2 Hp3 Hf3 HR3); [|exact Hg3].
+    exists a, b, kvs. split; [eapply den_mono; [|exact Hda]; eapply prefix_trans; eauto|]. split; [eapply den_mono; eauto|]. split; [exact Hd3|reflexivity].
+  Qed.
+
+  Lemma xsim_edge fuel le ll lf src snk dbg : fexpr' src -> fexpr' snk -> env_rel' le ll ->
+    xsimU (a <- (x <- eval' fuel le src ;; lift (as_gnode x)) ;; b <- (x <- eval' fuel le snk ;; lift (as_gnode x)) ;;
+           isnew <- add_edge a b ;; (if isnew : bool then ret tt else ret tt))
+          (a <- leval' lf ll src ;; b <- leval' lf ll snk ;; push_lstmt (LSEdge a b [] dbg)).
+  Proof.
+    intros Hfa Hfb Henv ss p u ss' p' H ls pl [rho HR] Hb.
+    apply bind_ok in H. destruct H as (a & s1 & p1 & H1 & H). apply bind_ok in H. destruct H as (b & s2 & p2 & H2 & H).
+    apply bind_ok in H. destruct H as (isnew & s3 & p3 & H3 & H4).
+    assert (E4 : ss' = s3) by (destruct isnew; apply ret_ok in H4; destruct H4 as (_ & -> & _); reflexivity). subst s3.
+    apply lres_bind. eapply lres_mono; [apply (endpoint_sim fuel le ll src lf Hfa Henv _ _ _ _ _ H1 rho ls pl (proj1 HR) Hb)|].
+    intros a' ls1 pl1 HP1. destruct (rel_step _ rho a ss s1 ls a' ls1 pl1 HR HP1) as (rho1 & _ & HR1 & Hda).
+    apply lres_bind. eapply lres_mono; [apply (endpoint_sim fuel le ll snk lf Hfb Henv _ _ _ _ _ H2 rho1 ls1 pl1 (proj1 HR1) (proj1 HP1))|].
+    intros b' ls2 pl2 HP2. destruct (rel_step _ rho1 b s1 s2 ls1 b' ls2 pl2 HR1 HP2) as (rho2 & Hp12 & HR2 & Hdb).
+    unfold push_lstmt, Lazy.upd. apply lres_modify. split; [apply HP2|]. split; [|exact I]. exists rho2.
+    destruct (add_edge_ok _ _ _ _ _ _ _ H3) as [Hedge Hs]. apply (rel_push_edge rho2 s2 ss' ls2 a' b' a b dbg HR2); [eapply den_mono; eauto|exact Hdb|exact Hedge|].
+    rewrite Hs. reflexivity.
+  Qed.
+
+  (* `print`: the strict side evaluates the arguments, the lazy side records lazy values that denote something *)
+  Lemma iterM_mapM {S X} (F : X -> M S unit) l s p u s' p' : iterM F l s p = Ok (u, s', p') -> exists us, mapM F l s p = Ok (us, s', p').
+  Proof.
+    revert s p. induction l as [|x l IH]; intros s p H; cbn [iterM mapM] in *.
+    - apply ret_ok in H. destruct H as (_ & -> & ->). exists []. reflexivity.
+    - apply bind_ok in H. destruct H as (u1 & s1 & p1 & H1 & H2). destruct (IH _ _ H2) as (us & E). exists (u1 :: us).
+      unfold bind. rewrite H1. unfold bind in E. rewrite E. reflexivity.
+  Qed.
+  Definition arg_ok (rho : list value) (a : option lvalue) (_ : unit) : Prop :=
+    match a with Some lv => exists v, den rho lv v | None => True end.
+  Lemma arg_ok_mono : Qmono arg_ok.
+  Proof. intros r r' [lv|] [] Hp; cbn; [|auto]. intros [v Hv]. exists v. eapply den_mono; eauto. Qed.
+
+  Lemma print_arg_sim fuel le ll lf e : fexpr' e -> env_rel' le ll ->
+    esim call arg_ok (match e with EStr _ => ret tt | _ => eval' fuel le e ;;; ret tt end)
+                     (match e with EStr _ => ret None | _ => lv <- leval' lf ll e ;; ret (Some lv) end).
+  Proof.
+    intros Hf Henv.
+    assert (Hgen : esim call arg_ok (eval' fuel le e ;;; ret tt) (lv <- leval' lf ll e ;; ret (Some lv))).
+    { intros ss p u ss' p' H rho ls pl HR Hb. apply bind_ok in H. destruct H as (v & s1 & p1 & H1 & H2). apply ret_ok in H2. destruct H2 as (-> & -> & ->).
+      apply lres_bind. eapply lres_mono; [apply (eval_sim t fl glob call okfn Hpure m fuel le ll e Hf Henv lf _ _ _ _ _ H1 rho ls pl HR Hb)|].
+      intros lv ls1 pl1 HP. apply lres_ret. eapply epost_impl; [exact HP|]. intros r Hd. exists v. exact Hd. }
+    destruct e; try exact Hgen.
+    intros ss p u ss' p' H rho ls pl HR Hb. apply ret_ok in H. destruct H as (-> & -> & ->). apply lres_ret. apply epost_here; [exact HR|exact Hb|exact I].
+  Qed.
+
+  Lemma xsim_print fuel le ll lf values dbg : All fexpr' values -> env_rel' le ll ->
+    xsimU (iterM (fun e => match e with EStr _ => ret tt | _ => eval' fuel le e ;;; ret tt end) values)
+          (args <- mapM (fun e => match e with EStr _ => ret None | _ => lv <- leval' lf ll e ;; ret (Some lv) end) values ;;
+           push_lstmt (LSPrint args dbg)).
+  Proof.
+    intros Hf Henv ss p u ss' p' H ls pl [rho HR] Hb. destruct (iterM_mapM _ _ _ _ _ _ _ H) as (us & H').
+    apply lres_bind.
+    eapply lres_mono; [apply (trav_sim call _ _ arg_ok fexpr' arg_ok_mono (fun e He => print_arg_sim fuel le ll lf e He Henv) values Hf _ _ _ _ _ H' rho ls pl (proj1 HR) Hb)|].
+    intros args ls1 pl1 HP. destruct (rel_step _ rho us ss ss' ls args ls1 pl1 HR HP) as (rho1 & _ & HR1 & HF).
+    unfold push_lstmt, Lazy.upd. apply lres_modify. split; [apply HP|]. split; [|exact I]. exists rho1.
+    destruct HR1 as (A & Hsc & Hpr & B). split; [exact A|]. split; [exact Hsc|]. split; [|exact B].
+    cbn [l_prints]. apply Forall_app. split; [exact Hpr|]. constructor; [|constructor]. cbn [print_ok].
+    clear -HF. induction HF as [|a b l l' Hab _ IH]; constructor; [exact Hab|exact IH].
+  Qed.
+
+  (* ---------------- control flow ---------------- *)
+  Lemma All_impl {X} (P Q : X -> Prop) l : (forall x, P x -> Q x) -> All P l -> All Q l.
+  Proof. intros H. induction l as [|x l IH]; cbn [All]; [auto|]. intros [A1 A2]. auto. Qed.
+
+  Lemma xsim_cond fuel le ll lf c : fcond okfn m c -> env_rel' le ll ->
+    xsim eq (test_cond t fl glob call fuel le c) (ltest_cond t fl glob call lf ll c).
+  Proof.
+    intros Hf Henv. destruct c; cbn [test_cond ltest_cond fcond] in *.
+    - eapply xsim_bind; [apply xsim_eager; eassumption|]. intros a b <-. apply xsim_ret. reflexivity.
+    - eapply xsim_bind; [apply xsim_eager; eassumption|]. intros a b <-. apply xsim_ret. reflexivity.
+    - eapply xsim_bind; [apply xsim_eager; eassumption|]. intros a b <-. apply xsim_lift.
+  Qed.
+
+  Lemma xsim_if test test' run run' arms :
+    All (fun arm : list cond * list stmt * loc =>
+           All (fun c => xsim eq (test c) (test' c)) (fst (fst arm)) /\ xsimU (run (snd (fst arm))) (run' (snd (fst arm)))) arms ->
+    xsimU (if_loop test run arms) (lif_loop test' run' arms).
+  Proof.
+    induction arms as [|[[conds body] l'] arms IH]; cbn [if_loop lif_loop All fst snd]; [intros _; apply xsim_ret; exact I|].
+    intros [[Hc Hb] Hrest]. eapply xsim_bind; [apply (xsim_mapM eq _ test test' conds (fun c Hc0 => Hc0) Hc)|].
+    intros bs bs' HF. apply Forall2_eq in HF. subst bs'. destruct (forallb (fun b => b) bs); [|apply IH, Hrest].
+    apply xsim_seq; [apply xsim_push_frame|]. apply xsim_seq; [exact Hb|apply xsim_pop_frame].
+  Qed.
+
+  Lemma xsim_scan run run' arms rs subject :
+    (forall caps k r body l', nth_error arms k = Some (r, body, l') -> xsimU (run caps body) (run' caps body)) ->
+    forall sfuel i, xsimU (scan_loop find run arms rs subject sfuel i) (lscan_loop find run' arms rs subject sfuel i).
+  Proof.
+    intros Hrun. induction sfuel as [|sfuel IH]; intros i; cbn [scan_loop lscan_loop]; [apply xsim_soof|].
+    destruct (N.ltb i (N.of_nat (length subject))); [|apply xsim_ret; exact I]. apply xsim_spoll. cbv zeta. apply xsim_lpoll_n.
+    destruct (arm_select find rs (skipn (N.to_nat i) subject)) as [|k|k caps]; [apply xsim_ret; exact I|apply xsim_sfail|].
+    destruct (nth_error arms (N.to_nat k)) as [[[r body] l']|] eqn:E; [|apply xsim_spanic].
+    apply xsim_seq; [apply xsim_push_frame|]. apply xsim_seq; [apply (Hrun _ _ _ _ _ E)|]. apply xsim_seq; [apply xsim_pop_frame|apply IH].
+  Qed.
+
+  Lemma env_rel_ctx le ll c c' : env_rel' le ll -> env_rel' (le_with_ctx le c) (ll_with_ctx ll c').
+  Proof. intros H. exact H. Qed.
+  Lemma env_rel_caps le ll caps : env_rel' le ll -> env_rel' (le_with_caps le caps) (ll_with_caps ll caps).
+  Proof. intros (H1 & H2 & H3). repeat split; assumption. Qed.
+
+  Lemma stmt_sim : forall fuel le ll s, fstmt' s -> env_rel' le ll -> forall lf, xsimU (exec_stmt' fuel le s) (lexec_stmt' lf ll s).
+  Proof.
+    induction fuel as [|fuel IH]; intros le ll s Hf Henv lf; [apply xsim_soof|]. destruct lf as [|lf]; [apply xsim_loof|].
+    assert (Hblock : forall le' ll' (wrap : M sstate unit -> M sstate unit) body, env_rel' le' ll' -> All fstmt' body ->
+               (forall ms ml, xsimU ms ml -> xsimU (wrap ms) ml) ->
+               xsimU (iterM (fun st => let c := ctx_update (le_ctx le') st in
+                                       ctx_wrap (CtxStmts [c]) (wrap (exec_stmt' fuel (le_with_ctx le' c) st))) body)
+                     (iterM (fun st => lexec_stmt' lf (ll_with_ctx ll' (ctx_update (ll_ctx ll') st)) st) body)).
+    { intros le' ll' wrap body Henv' Hbody Hw. apply (xsim_iter fstmt'); [|exact Hbody]. intros st Hst. cbv zeta. apply xsim_sctx, Hw.
+      apply IH; [exact Hst|apply env_rel_ctx, Henv']. }
+    assert (Harm : forall le' ll' body, env_rel' le' ll' -> All fstmt' body ->
+               xsimU (iterM (fun st => let c := ctx_update (le_ctx le') st in
+                                       ctx_wrap (CtxStmts [c]) (ctx_wrap CtxOther (exec_stmt' fuel (le_with_ctx le' c) st))) body)
+                     (iterM (fun st => let c := ctx_update (ll_ctx ll') st in
+                                       ctx_wrap (CtxStmts [c]) (ctx_wrap CtxOther (lexec_stmt' lf (ll_with_ctx ll' c) st))) body)).
+    { intros le' ll' body Henv' Hbody. apply (xsim_iter fstmt'); [|exact Hbody]. intros st Hst. cbv zeta. apply xsim_sctx, xsim_sctx, xsim_lctx, xsim_lctx.
+      apply IH; [exact Hst|apply env_rel_ctx, Henv']. }
+    destruct s; cbn [exec_stmt lexec_stmt]; cbn [fstmt] in Hf; apply xsim_spoll, xsim_lpoll.
+    - (* let *) destruct Hf as [Hv He]. destruct v; [|contradiction]. cbn [var_add lvar_add]. apply xsim_bind_var; assumption.
+    - (* var *) destruct Hf as [Hv He]. destruct v; [|contradiction]. cbn [var_add lvar_add]. apply xsim_bind_var; assumption.
+    - (* set *) destruct Hf as [Hv He]. destruct v; [|contradiction]. cbn [var_set lvar_set]. apply xsim_set_var; assumption.
+    - (* node *) destruct v; [|contradiction]. cbn [config0 c_var_attr c_loc_attr c_match_attr opt_attr lopt_node_attr var_add lvar_add].
+      eapply xsim_bind; [apply xsim_add_node|]. intros n n' <-. apply xsim_seq; [apply xsim_ret; exact I|]. apply xsim_seq; [apply xsim_ret; exact I|].
+      apply xsim_seq; [apply xsim_ret; exact I|]. apply (xsim_unscoped_add ll name (VGraph n) false).
+    - (* attr on a node *) destruct Hf as [Hn Ha]. apply xsim_attr_node; assumption.
+    - (* edge *) destruct Hf as [Ha Hb]. cbn [config0 c_loc_attr opt_attr]. apply xsim_edge; assumption.
+    - (* attr on an edge *) destruct Hf as (Ha & Hb & Hat). apply xsim_attr_edge; assumption.
+    - (* scan *) destruct Hf as [Hv Harms]. eapply xsim_bind; [apply xsim_eager; eassumption|]. intros sv sv' <-.
+      eapply xsim_bind; [apply xsim_lift|]. intros subject subject' <-. destruct (arm_table regexes arms) as [rs|]; [|apply xsim_spanic].
+      apply xsim_scan. intros caps k r body l' E. apply Harm; [apply env_rel_caps, Henv|].
+      apply (All_In _ _ _ Harms (nth_error_In _ _ E)).
+    - (* print *) apply xsim_print; assumption.
+    - (* if *) apply xsim_if. eapply All_impl; [|exact Hf]. intros [[conds body] l'] [Hc Hb]. cbn [fst snd] in *. split.
+      + eapply All_impl; [|exact Hc]. intros c Hfc. apply xsim_cond; assumption.
+      + apply (Hblock le ll (fun ms => ms) body Henv Hb). auto.
+    - (* for *) destruct Hf as [Hv Hbody]. eapply xsim_bind; [apply xsim_eager; eassumption|]. intros lv lv' <-.
+      eapply xsim_bind; [apply xsim_lift|]. intros vals vals' <-. apply xsim_seq; [apply xsim_push_frame|].
+      apply xsim_seq; [|apply xsim_pop_frame]. apply (xsim_iter (fun _ => True)); [|clear; induction vals; cbn; auto].
+      intros v _. apply xsim_seq; [apply xsim_clear_frame|]. apply xsim_seq; [apply xsim_unscoped_add|].
+      apply (Hblock le ll (fun ms => ms) body Henv Hbody). auto.
+  Qed.
+
+  (* one match of one stanza *)
+  Lemma stanza_sim fuel lf st : All fstmt' (st_stmts st) -> nodes_for_capture m (st_full_file_idx st) <> [] ->
+    xsimU (exec_stanza t fl config0 glob regexes find call fuel st m) (lexec_stanza t fl config0 glob regexes find call lf st m).
+  Proof.
+    intros Hst Hfull. unfold exec_stanza, lexec_stanza. apply xsim_lpoll. apply xsim_seq; [apply xsim_clear_frame|]. cbv zeta.
+    destruct (nodes_for_capture m (st_full_file_idx st)) as [|n' ns']; [contradiction|].
+    apply (xsim_iter fstmt'); [|exact Hst]. intros s Hs.
+    destruct (nodes_for_capture m (st_full_stanza_idx st)) as [|n ns]; [apply xsim_spanic|].
+    apply xsim_sctx, xsim_lctx. apply stmt_sim; [exact Hs|]. repeat split.
+  Qed.
 End Stmt.
